@@ -325,6 +325,7 @@ pub struct LinStats {
 #[derive(Clone, Debug, Default)]
 pub struct Obs {
     pub rejected_op: Option<String>,
+    pub calls_accepted: String,
     pub dedup: String,
     pub dedup_paths: String,
     pub gen_orig: String,
@@ -351,6 +352,10 @@ impl Obs {
             ("generate(deduplicated)", &self.gen_dedup),
             ("validation_as_sets", &self.validation),
             ("resolve_type_path(all ids)", &self.resolve_all),
+            // every call of every history is valid; whether the builders accepted them all is
+            // an outcome like any other (C16 judges the builders, C06 only that equal settings
+            // behave equally)
+            ("builder_calls_accepted", &self.calls_accepted),
         ]
     }
     pub fn digest(&self) -> u64 {
@@ -360,7 +365,7 @@ impl Obs {
             d.str(v);
         }
         d.str(&self.gen_orig_again);
-        d.str(&format!("{:?}{:?}{:?}", self.rejected_op, self.sorted_problem, self.validation_repeated));
+        d.str(&format!("{:?}{:?}", self.rejected_op, self.sorted_problem));
         d.0
     }
 }
@@ -381,6 +386,7 @@ pub fn execute(reg: &PortableRegistry, sw: &Switches, ops: &[Op]) -> Obs {
             o.rejected_op = Some(format!("{op:?} -> {}", e.name()));
         }
     }
+    o.calls_accepted = if o.rejected_op.is_some() { "no" } else { "yes" }.to_string();
     // raw iteration orders (reach measure: did the hash schedule actually vary?)
     o.raw_orders.push((
         "TypeSubstitutes::iter".into(),
@@ -417,6 +423,9 @@ pub fn execute(reg: &PortableRegistry, sw: &Switches, ops: &[Op]) -> Obs {
     let settings = sw.settings(b);
     let d = observe::dedup(reg);
     let mut sorted_problem = None;
+    // precedence pairs over all items of all outputs of this execution
+    let mut derive_pairs: BTreeSet<(String, String)> = BTreeSet::new();
+    let mut attr_pairs: BTreeSet<(String, String)> = BTreeSet::new();
     let mut check_sorted = |tokens: &Result<String, String>, o: &mut Obs| {
         if let Ok(t) = tokens {
             match observe::item_attrs(t) {
@@ -424,11 +433,16 @@ pub fn execute(reg: &PortableRegistry, sw: &Switches, ops: &[Op]) -> Obs {
                     for it in items {
                         o.max_derives_attrs.0 = o.max_derives_attrs.0.max(it.derives.len());
                         o.max_derives_attrs.1 = o.max_derives_attrs.1.max(it.attrs.len());
-                        if let Err(e) = observe::sorted_dupfree(&it.derives) {
-                            sorted_problem.get_or_insert(format!("derives of {}: {e}", it.path));
-                        }
-                        if let Err(e) = observe::sorted_dupfree(&it.attrs) {
-                            sorted_problem.get_or_insert(format!("attributes of {}: {e}", it.path));
+                        for (what, list, before) in [
+                            ("derives", &it.derives, &mut derive_pairs),
+                            ("attributes", &it.attrs, &mut attr_pairs),
+                        ] {
+                            if let Err(e) = observe::dupfree(list) {
+                                sorted_problem.get_or_insert(format!("{what} of {}: {e}", it.path));
+                            }
+                            if let Err(e) = observe::consistent_order(list, before) {
+                                sorted_problem.get_or_insert(format!("{what} of {}: {e}", it.path));
+                            }
                         }
                     }
                 }
@@ -581,9 +595,6 @@ pub fn judge(obs: &[Result<Obs, String>]) -> Option<(String, String)> {
                 return Some((class.into(), format!("execution {i} panicked: {p}")));
             }
             Ok(o) => {
-                if let Some(r) = &o.rejected_op {
-                    return Some(("harness-op-rejected".into(), r.clone()));
-                }
                 if o.gen_orig != o.gen_orig_again {
                     return Some((
                         "same-thread-regeneration".into(),
@@ -596,12 +607,7 @@ pub fn judge(obs: &[Result<Obs, String>]) -> Option<(String, String)> {
                 if let Some(s) = &o.sorted_problem {
                     return Some(("unsorted-or-duplicate".into(), format!("execution {i}: {s}")));
                 }
-                if let Some(s) = &o.validation_repeated {
-                    return Some((
-                        "validation-path-listed-twice".into(),
-                        format!("execution {i}: {s}"),
-                    ));
-                }
+
             }
         }
     }
@@ -834,6 +840,8 @@ pub struct RunReport {
     pub sample: Option<Value>,
     pub reg_kind: String,
     pub repeats: usize,
+    pub clashing_paths: usize,
+    pub heavy_globals: bool,
     /// (observable, number of entries, permutation pattern relative to sorted order)
     pub patterns: BTreeSet<(String, usize, String)>,
 }
@@ -953,6 +961,8 @@ pub fn one_run(w: &World, ctx: &Ctx, run: u64, full_runs: u64, want_sample: bool
                 .any(|(q, r2, _, _)| q == p && !*r2)
     });
     rep.overlapping_recursive_roots = overlapping_recursive(&plan.reg, &plan.logical);
+    rep.clashing_paths = corpus::repeated_paths(&plan.reg).len();
+    rep.heavy_globals = plan.logical.global_derives.len() >= 4 && plan.logical.global_attrs.len() >= 3;
     if let Some((class, detail)) = judge(&obs) {
         rep.violation = Some(minimise_and_package(&plan, class, detail, run));
     }
@@ -1482,8 +1492,10 @@ fn summarise(ctx: &Ctx, reports: Vec<RunReport>, cross: Value, mut violations: V
                 probes.entry(k).or_default();
             }
         };
-        p("runs_with_two_or_more_paths_renamed", r.renamed_paths >= 2);
-        p("runs_with_item_4plus_derives_3plus_attrs", r.max_derives_attrs.0 >= 4 && r.max_derives_attrs.1 >= 3);
+        p("runs_with_two_or_more_clashing_paths", r.clashing_paths >= 2);
+        p("runs_with_two_or_more_paths_renamed (observed)", r.renamed_paths >= 2);
+        p("runs_with_4plus_global_derives_and_3plus_global_attrs", r.heavy_globals);
+        p("runs_with_item_4plus_derives_3plus_attrs (observed)", r.max_derives_attrs.0 >= 4 && r.max_derives_attrs.1 >= 3);
         p("runs_with_unknown_path_registered_specific_and_recursive", r.both_ways_unknown);
         p("runs_with_overlapping_recursive_roots", r.overlapping_recursive_roots);
         p("runs_where_generation_succeeded", r.gen_ok);
@@ -1504,22 +1516,21 @@ fn summarise(ctx: &Ctx, reports: Vec<RunReport>, cross: Value, mut violations: V
     }
     // reach probes that must not be zero, otherwise the workload no longer reaches what it claims
     let must_nonzero = [
-        "runs_with_two_or_more_paths_renamed",
-        "runs_with_item_4plus_derives_3plus_attrs",
+        "runs_with_two_or_more_clashing_paths",
+        "runs_with_4plus_global_derives_and_3plus_global_attrs",
         "runs_with_overlapping_recursive_roots",
-        "runs_where_generation_succeeded",
         "runs_with_distinct_histories",
     ];
-    if runs >= 500 {
+    // workload-side probes only, and only when no violation was found (a violation is the
+    // verdict). Whether the implementation's own collections iterate in varying order is reported
+    // but not required: an implementation that switches to ordered maps is still correct, and the
+    // start-up canary already proves that the seam varies std's hash order.
+    if runs >= 500 && violations.is_empty() {
         for k in must_nonzero {
             if probes.get(k).copied().unwrap_or(0) == 0 {
                 eprintln!("HARNESS ERROR: reach probe {k} is zero over {runs} runs");
                 return 2;
             }
-        }
-        if order_var.values().all(|v| *v == 0) {
-            eprintln!("HARNESS ERROR: no run exhibited two distinct iteration orders");
-            return 2;
         }
     }
     let unsched = entropy::UNSCHEDULED_DRAWS.load(std::sync::atomic::Ordering::SeqCst);
@@ -1565,7 +1576,7 @@ fn summarise(ctx: &Ctx, reports: Vec<RunReport>, cross: Value, mut violations: V
         coverage,
         vec![
             "the interposed getrandom is the only entropy source reaching std::collections::hash_map::RandomState (canary at start-up)".into(),
-            "'sorted' is read as: strictly increasing by token string (with or without whitespace)".into(),
+            "'sorted' is read as: all derive (attribute) lists of an output follow one strict total order - which order is the implementation's choice - and no list contains the same tokens twice".into(),
             "sampling, not proof".into(),
         ],
         violations,
